@@ -502,7 +502,7 @@ NOT_YET = {}
 
 MC_DEFAULT = dict(NT=2, NR=1, NV=2, NA=2, LEN=2, Family="WF", Writer=[0], RChks=["eq"], OChks=["eq"], WChks=["eq"],
                   Fs=[0, 2], MaxSessions=2, MaxChanges=1, MaxRoots=1, MaxBU=0, CheckLeftoverOfAborted=False,
-                  EdgeReinsertMovesToBack=False, EmitScenarios=False, Conform=False, MidSession=False)
+                  EdgeReinsertMovesToBack=False, EmitScenarios=False, Conform=False, MidSession=False, Retry=False)
 
 # name -> parameter overrides.  Quick configurations finish in well under a minute each.
 MC_CONFIGS = {
@@ -530,6 +530,8 @@ MC_CONFIGS = {
     "role_2t1r": dict(Family="ROLE", NR=1, Fs=[2], MaxSessions=3, MaxChanges=2),
     "role_2t2r": dict(Family="ROLE", NR=2, Writer=[0, 0], Fs=[2], MaxSessions=2, MaxChanges=1),
     "abort_2t1r": dict(Family="ABORT", Fs=[2], MaxSessions=3, MaxChanges=0),
+    # the caller keeps the session after a caught top-down panic and requires again in it (two roots per session)
+    "abort_retry_2t1r": dict(Family="ABORT", Fs=[2], MaxSessions=2, MaxChanges=0, MaxRoots=2, Retry=True),
     "abort_2t2r_gen": dict(Family="ABORT", NR=2, Writer=[0, 2], Fs=[2], MaxSessions=3, MaxChanges=0),
     "fault_2t1r": dict(Family="FAULT", RChks=["eqF"], Fs=[2], MaxSessions=2, MaxChanges=1),
     "fault_2t1r_bu": dict(Family="FAULT", RChks=["eqF"], Fs=[2], MaxSessions=3, MaxChanges=2, MaxBU=1),
@@ -558,7 +560,7 @@ PROP_DESIGN = {
     "C15": ([], [], None),
     "C17": (["bu_2t1r"], ["bu_2t2r_gen", "inj_2t2r_bu"], "sim_wf"),
     "C18": (["fault_2t1r"], ["fault_2t1r_bu"], "sim_fault"),
-    "C19": (["abort_2t1r"], ["abort_2t2r_gen"], "sim_abort"),
+    "C19": (["abort_retry_2t1r", "abort_2t1r"], ["abort_2t2r_gen"], "sim_abort"),
     "C20": (["role_2t1r"], ["role_2t2r"], "sim_role"),
 }
 
@@ -592,7 +594,7 @@ def run_mc(name, overrides=None, workers=None, timeout=1800, simulate=None, extr
     with open(cfg, "w") as f:
         f.write("SPECIFICATION Spec\nCONSTANTS\n")
         for k in ("NT", "NR", "NV", "NA", "LEN", "Family", "MaxSessions", "MaxChanges", "MaxRoots", "MaxBU",
-                  "CheckLeftoverOfAborted", "EdgeReinsertMovesToBack", "EmitScenarios", "Conform", "MidSession"):
+                  "CheckLeftoverOfAborted", "EdgeReinsertMovesToBack", "EmitScenarios", "Conform", "MidSession", "Retry"):
             f.write("  %s = %s\n" % (k, tla_val(params[k])))
         for k in ("Writer", "RChks", "OChks", "WChks", "Fs"):
             f.write("  %s <- MC%s\n" % (k, k))
@@ -1084,7 +1086,7 @@ def run_conform(trace_file, dims, tag, timeout=1800):
     with open(cfg, "w") as f:
         f.write("SPECIFICATION CSpec\nCONSTANTS\n  NT = %d\n  NR = %d\n  NV = %d\n  NA = %d\n  LEN = %d\n" % (nt, nr, nv, na, ln))
         f.write('  Family = "WF"\n  MaxSessions = 1000\n  MaxChanges = 1000\n  MaxRoots = 1000\n  MaxBU = 1000\n')
-        f.write("  CheckLeftoverOfAborted = FALSE\n  EdgeReinsertMovesToBack = FALSE\n  EmitScenarios = FALSE\n  Conform = TRUE\n  MidSession = FALSE\n")
+        f.write("  CheckLeftoverOfAborted = FALSE\n  EdgeReinsertMovesToBack = FALSE\n  EmitScenarios = FALSE\n  Conform = TRUE\n  MidSession = FALSE\n  Retry = FALSE\n")
         for k in ("Writer", "RChks", "OChks", "WChks", "Fs"):
             f.write("  %s <- MC%s\n" % (k, k))
         f.write("VIEW cview\nPOSTCONDITION AllConsumed\nCHECK_DEADLOCK FALSE\n")
